@@ -1298,7 +1298,8 @@ theorem decode_encode_content (arch : Endian) (f f' : FileSt) (bs : Bytes)
         (wireFile Gen.profile (Gen.profile.containers.getD i default) f).slots).map slotMsgs)).1 ∧
       (decodeSpec Gen.profile o .full g (bs ++ tail) stop).1.st.glob =
         (expandSlots Gen.profile g (((Gen.profile.containers.getD i default).slots.zip
-          (wireFile Gen.profile (Gen.profile.containers.getD i default) f).slots).map slotMsgs)).2 :=
+          (wireFile Gen.profile (Gen.profile.containers.getD i default) f).slots).map slotMsgs)).2 ∧
+      ((F'.hdr.size = headerSizeNoCRC ∨ F'.hdr.size = headerSizeCRC) ∧ F'.hdr.dtype = fitTag ∧ F'.hdr.proto = f.hdr.proto) :=
   Fit.decode_encode_content Gen.profile Fit.Props.C01.gen_wf gen_containers_ok arch f f' bs h
     (fileRTB_sound Gen.profile Fit.Props.C01.gen_wf arch f hdom) hsmall
     (fun i hi => fileShapeB_sound _ f (hsh i hi)) o g tail stop
@@ -1319,7 +1320,8 @@ theorem decode_encode_identity (arch : Endian) (f f' : FileSt) (bs : Bytes)
       F'.tscorr = f.tscorr.map (wire1 Gen.profile) ∧ F'.cidx = f.cidx ∧
       F'.fieldDescs = [] ∧ F'.devIds = [] ∧
       (∀ i, f.cidx = some i → F'.slots = (wireFile Gen.profile (Gen.profile.containers.getD i default) f).slots) ∧
-      (decodeSpec Gen.profile o .full g (bs ++ tail) stop).1.st.glob = g :=
+      (decodeSpec Gen.profile o .full g (bs ++ tail) stop).1.st.glob = g ∧
+      ((F'.hdr.size = headerSizeNoCRC ∨ F'.hdr.size = headerSizeCRC) ∧ F'.hdr.dtype = fitTag ∧ F'.hdr.proto = f.hdr.proto) :=
   Fit.decode_encode_identity Gen.profile Fit.Props.C01.gen_wf gen_containers_ok arch f f' bs h
     (fileRTB_sound Gen.profile Fit.Props.C01.gen_wf arch f hdom) hsmall
     (fun i hi => fileShapeB_sound _ f (hsh i hi)) hone hnx o g tail stop
@@ -1379,7 +1381,7 @@ example (sz : Nat) (hsz : sz = 12 ∨ sz = 14) (arch : Endian) (o : Opts) (g : G
       rw [this] at hi
       injection hi with hi
       exact hi.symm
-    obtain ⟨F', _, hF, h3, _, _, _, _, _, h9, _⟩ := decode_encode_identity arch (exampleSettings sz) f' bs he (by rcases hsz with rfl | rfl <;> decide +kernel) h1
+    obtain ⟨F', _, hF, h3, _, _, _, _, _, h9, _, _⟩ := decode_encode_identity arch (exampleSettings sz) f' bs he (by rcases hsz with rfl | rfl <;> decide +kernel) h1
       (fun i h => by rw [hi i h]; rcases hsz with rfl | rfl <;> decide +kernel)
       (fun i h => by rw [hi i h]; rcases hsz with rfl | rfl <;> decide +kernel)
       (by rcases hsz with rfl | rfl <;> decide +kernel) o g tail stop
